@@ -59,6 +59,10 @@ CHECKS = {
  'C11': dict(sec='3/C11', tech='TLC enumeration of FeatureConstruction.tla (one action per constructor, flag subsets) + replay of every state through the real compute_batch_ranking with the constructed frame captured',
              text='FeatureConstruction.tla applies Expand/Sub/Interact/Noise in pipeline order to every frame of a bounded space and model-checks Additive, OneValuePerRow, MultiValueRule, OneSidedRule, TwoSidedRule, TargetControlIsLabel; every (frame, flags) state is replayed through the real compute_batch_ranking and the constructed frame compared column by column with the specification.',
              note='frames: label + multi-value column + two categorical columns, 3 rows; the order of appended columns is not constrained'),
+
+ 'C12': dict(sec='3/C12', tech='TLC enumeration of Transformers.tla (preset-list loop, keep/drop rule on symbol multisets, fw sqrt family with exact integer rounding) + each enumerated case bound to the real FeatureTransformerGeneric; named-formula oracle for the transcendental leaves',
+             text='Transformers.tla has three machines: the constructor loop over the preset list (CollectionIsUnion, with the presets extracted from the vault at check time), the keep/drop rule on every multiset of output symbols incl. the exact 80%/75% boundaries, and the fw sqrt family whose rounding is decided exactly in the integers from the resolution and threshold in the NAME; every list, multiset and (resolution, threshold, x) cell is compared with the real code; log-kind and minimal/default formulas use a scalar oracle written from the transformer names.',
+             note='log/default formulas are outside TLC (math library); ambiguous NaN-only-plus-one-symbol columns are not judged'),
 }
 
 checks = []
